@@ -203,7 +203,7 @@ def dep_cone(vfile: Path) -> list[Path]:
             return
         seen[p] = None
         text = strip_comments(p.read_text())
-        for m in re.finditer(r"From\s+HV\s+Require\s+(?:Import|Export)?\s*([^.]*(?:\.[A-Za-z_][\w']*)*[^.]*)\.\s", text):
+        for m in re.finditer(r"From\s+HV\s+Require\s+(?:Import\s+|Export\s+)?((?:[\w']+(?:\.[\w']+)*\s*)+)\.(?=\s|$)", text):
             for mod in m.group(1).split():
                 visit(COQ / (mod.replace(".", "/") + ".v"))
         for m in re.finditer(r"Require\s+(?:Import|Export)?\s+((?:HV\.[\w.']+\s*)+)\.", text):
